@@ -23,7 +23,17 @@ fn decode(h: &[u16; 60]) -> Result<Message, String> {
         };
     }
     match mon::catch(|| decode_rda_status_message(&mut &b[..])) {
-        Ok(Ok(m)) => Ok(m),
+        Ok(Ok(m)) if h[58] & 3 == 1 => {
+            // a reader that fails once, transiently, inside the message: an error is fine, the right
+            // message is fine, one put together from other bytes is not
+            match super::decode_through_flaky_reader(&b, crate::rng::fnv(&b), |rd| decode_rda_status_message(rd)) {
+                Err(p) => Err(format!("panic with a reader that fails transiently: {p}")),
+                Ok(Some(m2)) if fields(&m2) != fields(&m) => Err("a transient read error inside the message yields a message decoded from other bytes".to_string()),
+                _ => Ok(m),
+            }
+        }
+        // (one result in four is handed on as a clone: a copy holds what the original holds)
+        Ok(Ok(m)) => Ok(if h[58] & 3 == 2 { m.clone() } else { m }),
         Ok(Err(e)) => Err(format!("error {e:?}")),
         Err(p) => Err(p.signature()),
     }
